@@ -78,6 +78,9 @@ func runC02(c *harness.Ctx) {
 	kinds := []string{"control", "client-wrong-identity", "impostor-server", "tampered-response", "concurrent-clients", "impostor-low-order", "low-order-identity-key"}
 	c.Info["kind"] = kinds[kind]
 	c.Feature("kind-" + kinds[kind])
+	if kind == 2 || kind == 5 || kind == 6 {
+		c.S.Count("fault.impostor-"+kinds[kind], 1)
+	}
 	start := time.Now()
 
 	dial := func(name string, link *linkT, args *pt.Args, out *dialOutcome) {
@@ -387,6 +390,7 @@ func runC02(c *harness.Ctx) {
 			}
 			at := lo + frac*(hi-lo)/1000
 			tampered = true
+			c.S.CountLocked("fault.tamper-response-"+fields[field], 1)
 			c.Info["tamper_offset"] = at
 			if field == 5 {
 				// cut inside MAC_S and never deliver the rest
